@@ -18,6 +18,7 @@ import (
 type Case struct {
 	G   vkit.GJ `json:"g"`
 	Neg bool    `json:"neg,omitempty"`
+	Nil bool    `json:"nil,omitempty"` // negative case with the nil Geom
 }
 
 var five = []string{"Point", "LineString", "MultiLineString", "Polygon", "MultiPolygon"}
@@ -30,6 +31,7 @@ func gen(t *rapid.T) Case {
 		c.Neg = true
 		o.Types = []string{"MultiPoint", "GeometryCollection", "Bounds"}
 		o.MaxDepth = 1
+		c.Nil = rapid.IntRange(0, 3).Draw(t, "nilgeom") == 2
 	}
 	c.G = vkit.GenGJ(t, o)
 	return c
@@ -217,11 +219,18 @@ func run(c Case) (v vkit.Verdict) {
 		v.Class("negative")
 		var b []byte
 		var err error
+		if c.Nil {
+			g = nil
+			v.Class("negative_nil")
+		}
 		if p := vkit.Catch(func() { b, err = wkt.Encode(g) }); p != "" {
 			return v.Fail("Encode(%s) panicked: %s", c.G.T, p)
 		}
 		if err == nil || b != nil {
 			return v.Fail("Encode(%s) = %q, %v; want an error", c.G.T, b, err)
+		}
+		if p := vkit.Catch(func() { _ = err.Error() }); p != "" {
+			return v.Fail("the error returned by Encode (nil geometry: %v) cannot be printed: Error() panicked: %s", c.Nil, p)
 		}
 		return v
 	}
